@@ -470,3 +470,41 @@ def exact_keys(d, pairs):
     """d has exactly the str keys whose condition holds (key set and length)"""
     pairs = [(n, (z3.BoolVal(True) if c is True else c)) for n, c in pairs]
     return z3.And(Val.dhas(d) == keyset_if(pairs), Val.dlen(d) == z3.Sum([z3.If(c, 1, 0) for _, c in pairs]))
+
+
+# translator callables: outcome in ghost state (like environment callables)
+T.declare_ghost("x_kind", z3.IntSort())
+T.declare_ghost("x_val", Val)
+
+
+def xlate_call(ex, st, f, argv, kw, text, base=Exception):
+    """a callable invoked by the class translator (serialisation handler, custom serialise method, class
+    constructor): appends (f, args, kwargs) to ghost xlate_log; returns any value (ghost x_kind=0, x_val) or
+    raises any Exception (x_kind=1); writes no attribute of the repository's objects"""
+    T.used("translator callable", xlate_call.__doc__.strip())
+    st = st.copy()
+    TABLE.ghost_append(st, "xlate_log", V.mk_tuple([f, argv, kw]))
+    ret = V.fresh("xret")
+    s_ok = st.copy()
+    s_ok.sig.append("xlate:%s:ret" % text)
+    s_ok.ghost["x_kind"] = z3.IntVal(0)
+    s_ok.ghost["x_val"] = ret
+    s_ex = st.copy()
+    s_ex.sig.append("xlate:%s:raise" % text)
+    e = ex.env_exc(s_ex, base)
+    s_ex.ghost["x_kind"] = z3.IntVal(1)
+    s_ex.ghost["x_val"] = e
+    return [(s_ok, ("val", ret)), (s_ex, ("raise", e))]
+
+
+TABLE.xlate_call = xlate_call
+
+module_of = z3.Function("module_of", z3.IntSort(), z3.IntSort())      # type id -> opaque id of its module object
+module_name = z3.Function("fun_name", z3.IntSort(), z3.StringSort())  # shares the __name__ table of opaque callables
+
+
+@TABLE.register("inspect.getmodule")
+def _getmodule(ex, st, args, kwargs, text):
+    """inspect.getmodule(cls): an opaque module object whose __name__ is a function of the class"""
+    t = ex.lift(args[0])
+    return [(st, ("val", V.VFun(module_of(Val.tid(t)))))]
